@@ -10,13 +10,13 @@ TRUST = ("Trusted: Go type checker and go/ssa (x/tools v0.29.0), CHA/VTA call gr
 
 # id -> (technique, level text, design ref)   -- only properties whose check exists are listed here
 CLAIMS = {
-    "C14": ("dominance/path analysis over go/ssa of the cutting-planes search loop: top-level binding protocol of learned literals (retract, bind, conclude Unsat on conflict, rebuild the heap) in every search loop, failure sentinel of the analyser leads to Unsat, learned constraint recorded as reason, drop-implies-unwatch, growth of the per-variable buffers; boundedness evidence for backward walks over the trail in the conflict analysers",
-            "Decides only the structural clauses of the pseudo-boolean search loop (it treats learned facts, reasons, deletions and buffers as the clause-learning loop does). Everything arithmetic about the strategy (cancelling addition, weakening, division, slack, backjump level: that learned constraints are implied and answers unchanged) is NOT decided; most conceivable defects of the strategy are of that kind. One failure mode is structural and reported: the unbounded backward walk over the trail in cuttingPlanes (open known finding D30: the strategy panics on small inputs).",
+    "C14": ("dominance/path analysis over go/ssa of the cutting-planes search loop: top-level binding protocol of learned literals (retract, bind, conclude Unsat on conflict, rebuild the heap) in every search loop, failure sentinel of the analyser leads to Unsat, learned constraint recorded as reason, drop-implies-unwatch, growth of the per-variable buffers; boundedness evidence for backward walks over the trail in the conflict analysers; degree bookkeeping of the cancelling addition (min / abs recognised by their bodies); lower bound of bounded trail walks; full-range single-exit loop of the pseudo-boolean unwatcher",
+            "Decides only the structural clauses of the pseudo-boolean search loop (it treats learned facts, reasons, deletions and buffers as the clause-learning loop does). Of the arithmetic of the strategy only the degree update of the cancelling addition is decided; weakening, division, slack and backjump level (that learned constraints are implied and answers unchanged) are NOT decided; most conceivable defects of the strategy are of that kind. One failure mode is structural and reported: the unbounded backward walk over the trail in cuttingPlanes (open known finding D30: the strategy panics on small inputs).",
             "DESIGN.md section 5, C14"),
     "C02": ("precondition discharge for the panicking constraint constructors at every reachable call site (difference-bound reasoning over dominating branch facts, lifted through wrappers); scan-accounting analysis of every cursor<bound loop (each trip advances, shrinks or leaves); algebraic identities of the normalisers GtEq/LtEq/AtMost/AtMost1/Eq/Exactly1 by linear forms; justification analysis of the true exits of the pseudo-boolean propagation function; path evidence that list elements are bound at the top level only after their status was consulted",
             "Decides that trivially true/false constraints are handled rather than rejected in both constraint front-ends, that the parse-time simplifiers account for every literal exactly once, and that the normalisers perform the stated sign/degree bookkeeping. Necessary conditions; slack propagation and watch maintenance are not decided. Later clauses: a PB propagation step answers true only when satisfied / all propagated / watches updated; forced literals are bound only when not already false (defect D26, repaired).",
             "DESIGN.md section 5, C02"),
-    "C13": ("reachable-panic classification from the four text parsers with precondition discharge (E8) and a frozen table of malformed-input panics; operator-token dataflow in the OPB line parser (accepted set and dispatch); truth-table comparison of the duplicated WCNF hard/soft predicate; normaliser identities shared with C02; line-skip condition analysis of the line readers; variable-count coverage of the OPB term reader and header; terminator discipline of the DIMACS readers",
+    "C13": ("reachable-panic classification from the four text parsers with precondition discharge (E8) and a frozen table of malformed-input panics; operator-token dataflow in the OPB line parser (accepted set and dispatch); truth-table comparison of the duplicated WCNF hard/soft predicate; normaliser identities shared with C02; line-skip condition analysis of the line readers; variable-count coverage of the OPB term reader and header (the count follows the magnitude of the literal read); terminator discipline of the DIMACS readers; provenance of the weight list handed to the cost function by the MAXSAT front-ends",
             "Decides that no explicit panic is reachable from the parsers on grounds other than malformed input, that >= and = (and only those) are dispatched to their normalisers, that the two copies of the WCNF hard/soft predicate agree, and that the normalisers are the stated identities. That the parsed problem has the models of the text is not decided. Later clauses: only whole-line tests make a reader skip a line; objective variables and the declared `#variable=` count reach NbVars (defect D18, repaired); both DIMACS readers close clauses at the terminator (defects D20, repaired).",
             "DESIGN.md section 5, C13"),
     "C15": ("control-equivalence analysis in DetectAtMostOne (what is queued for removal is exactly what a constraint was added for), exit-edge analysis of the clause copy loop, linear-form and precondition check of the added constraint's degree; found-flag reset, absolute-index comparison, parallel-list pairing, per-iteration allocation of the constraint's literal slice",
@@ -37,10 +37,10 @@ CLAIMS = {
     "C17": ("table extraction from the recursive-descent parser (AST + types + SSA dominance): operator token, constructor, left/right operand callee per level, ordered by the call chain from Parse; end-of-input dominance check; error=>nil-formula fixpoint over the parser methods; consume-then-parse ordering analysis (end of input tested between a consumed token and the next operand)",
             "Decides the precedence/associativity table against the documented grammar, that a formula is returned only at end of input, and that an error never comes with a formula. Tokenisation and behaviour on every corrupted text are not decided. Later clause: after a token is consumed the end-of-input flag is tested before an operand is parsed.",
             "DESIGN.md section 5, C17"),
-    "C18": ("abstract string templates over go/ssa for every printer: separator analysis of loop-emitted items, header count = number of lines written, printer tokens included in parser tokens; sign/degree/unit-line rules of the OPB printers, offset tiling of pre-sized line tables, status dependence of whole-problem printers, writer/reader agreement on the `#variable=` declaration",
+    "C18": ("abstract string templates over go/ssa for every printer: separator analysis of loop-emitted items, header count = number of lines written, printer tokens included in parser tokens; sign/degree/unit-line rules of the OPB printers, offset tiling of pre-sized line tables, status dependence of whole-problem printers (left-over constraints rendered only behind Status != Unsat), writer/reader agreement on the `#variable=` declaration, objective-line rules (keyword independent of the weight list; `~` exactly on negative literals; coefficient not negated)",
             "Decides lexical well-formedness of what the printers emit (whitespace between items, header counts, tokens the parsers accept). Equality of models and costs after re-parsing is not decided in general. Later clauses: whole-problem printers depend on Problem.Status (defect D29, repaired) and the variable-count declaration is written and read (defect D18, repaired).",
             "DESIGN.md section 5, C18"),
-    "C19": ("table extraction from main.go over go/ssa: suffix->parser/printer dispatch, status->answer-line tables by constant propagation of solver.Status, error-edge->non-zero-exit path analysis, argument types of stdout prints, drain analysis of result channels",
+    "C19": ("table extraction from main.go over go/ssa: suffix->parser/printer dispatch, status->answer-line tables by constant propagation of solver.Status, error-edge->non-zero-exit path analysis, argument types of stdout prints, drain analysis of result channels (also through a starter that returns the channel), provenance of opened file names from the command line, condition set of the objective line, streaming producers started with go",
             "Decides the glue tables of the command line tool (dispatch, answer lines per status, error exits without answer line, no struct dumps, channels drained). Truthfulness of what is printed rests on the other properties.",
             "DESIGN.md section 5, C19"),
     "C04": ("path-sensitive typestate over go/ssa (raw/trimmed result cells refined by Status tests) for every Interface.Optimal wrapper; path-sensitive symbolic check of the relaxation built by maxsat.New (nil-ness of coefficient slice, degree facts); control-dependence check of the projection filter",
@@ -64,7 +64,7 @@ CLAIMS = {
     "C09": ("table-agreement analysis over go/ssa: per-variable fields discovered from constructor allocations and Var/Lit indexing, growth sites and ordering checked in every function that raises the variable count; dominance check of announce-before-use; constant-range check of status stores; three-valued bound and constraint-update analysis of AppendClause's scan (followed into a helper); path evidence that forced literals are bound only after their status was consulted",
             "Decides that every per-variable table grows (by the right amount, before the count is raised, with derived views rebuilt) whenever a new variable appears, that AppendClause announces a variable before using it, and that Unsat is absorbing. Necessary conditions of incremental solving; equivalence with solving from scratch is not decided. Later clauses: the three-valued weight bounds and the per-class constraint update of AppendClause; every forced literal is bound unless already true, and an already false one yields Unsat (defect D26, repaired).",
             "DESIGN.md section 5, C09"),
-    "C20": ("path-sensitive typestate over go/ssa for the result channel of every solver.Interface method (close-once, guarded sends, last-sent = returned); allocation-freshness analysis of sent slices; forwarder drain analysis",
+    "C20": ("path-sensitive typestate over go/ssa for the result channel of every solver.Interface method (close-once, guarded sends, last-sent = returned); allocation-freshness analysis of sent slices; forwarder drain analysis; select-around-send discipline; callee summaries carrying `returns the last value sent`; linear-form check of the strengthening step shared with C03 (also its cardinality form)",
             "Decides, on every path of every method implementing solver.Interface, that the result channel is closed exactly once when non-nil, never sent on while nil or after close, that the value returned is the last one sent, that sent slices are fresh, and that the MaxSAT forwarder drains its producer. Consumer-independent necessary conditions; validity and strict improvement of the results are not decided.",
             "DESIGN.md section 5, C20"),
     "C16": ("whole-program storage-distance (escape/ownership) analysis over go/ssa for package-level state; goroutine hand-over (join) analysis; import audit; close-on-every-return and fresh-slice-per-send clauses shared with C20",
